@@ -30,7 +30,8 @@ ASSUMPTIONS = ["an exception models a crash; DeferredFileWriter().close() afterw
 CASE_TIMEOUT = 300
 WALL = {"quick": 1200, "thorough": 10800}
 REQUIRED = {"faults_injected": 150, "faults_before_flush": 120, "faults_after_flush": 2, "stage_boundary_faults": 30,
-            "line_points_enumerated": 80, "success_runs_checked": 3, "programs": 3}
+            "line_points_enumerated": 80, "success_runs_checked": 3, "programs": 3,
+            "cli_killed": 10}
 NCHUNK = 8
 
 
@@ -47,6 +48,11 @@ def plan(tier, seed):
             cids.append([prog, i, "success", 0])
             for k in range(NCHUNK):
                 cids.append([prog, i, "faults", k])
+    # process level: the real command line program is killed (SIGKILL) at seeded moments
+    nk = 4 if tier == "quick" else 24
+    for prog in inputs:
+        for k in range(nk):
+            cids.append([prog, 0, "kill", k])
     return cids
 
 
@@ -272,9 +278,91 @@ def other_fs_tmpdir(workdir):
     return None
 
 
+CLI = {"gen_params": (["gen_params", "-f", "in.ff", "-seq", "RA:6", "-name", "P", "-o", "out.itp"], "out.itp"),
+       "gen_coords": (["gen_coords", "-p", "s.top", "-o", "out.gro", "-name", "x", "-box", "5", "5", "5"], "out.gro"),
+       "gen_seq": (["gen_seq", "-name", "s", "-from_string", "A:6:1:PEO-1.0", "B:3:2:PS-1.0", "-seq", "A", "B", "-connects",
+                    "0:1:5-0", "-o", "out.json"], "out.json")}
+
+
+def run_kill(cid, rng, workdir, res):
+    """SIGKILL the real CLI at a seeded moment; the output directory must be unchanged, or hold the complete file
+    (and the backup), or be in the writer's own hand-over state (recorded)"""
+    import signal
+    import subprocess
+    import time
+    from ..core import REPO
+    prog, idx, mode, k = cid
+    args, fname = CLI[prog]
+    make_input(prog, 0, workdir, rng)          # writes in.ff / s.top into workdir
+    env = dict(os.environ, PYTHONPATH=REPO, TQDM_DISABLE="1", TMPDIR=os.path.join(workdir, "tmp"))
+    os.makedirs(env["TMPDIR"], exist_ok=True)
+    exe = [sys.executable, os.path.join(REPO, "bin", "polyply")] + args
+
+    def prep(tag):
+        d = fresh_outdir(workdir, fname, tag)
+        for f in ("in.ff", "s.top"):
+            if os.path.exists(os.path.join(workdir, f)):
+                shutil.copy(os.path.join(workdir, f), os.path.join(d, f))
+        return d
+    d0 = prep("kref")
+    t0 = time.time()
+    p = subprocess.run(exe, cwd=d0, env=env, stdout=subprocess.DEVNULL, stderr=subprocess.PIPE, timeout=120)
+    T = time.time() - t0
+    res["sig"] = sig_of(cid)
+    res["sample"] = {"program": prog, "mode": "SIGKILL on the command line program", "command": args, "runtime_s": round(T, 2)}
+    note(res, "programs", prog)
+    if p.returncode != 0:
+        res["status"] = "error"
+        res["error"] = "reference CLI run failed: " + p.stderr.decode()[-400:]
+        return res
+    ref = open(os.path.join(d0, fname), "rb").read()
+    for j in range(3):
+        d = prep("k%d" % j)
+        before = fs_snapshot(d)
+        delay = rng.uniform(0.3, 1.0) * T
+        proc = subprocess.Popen(exe, cwd=d, env=env, stdout=subprocess.DEVNULL, stderr=subprocess.DEVNULL)
+        time.sleep(delay)
+        alive = proc.poll() is None
+        if alive:
+            proc.send_signal(signal.SIGKILL)
+        proc.wait()
+        after = fs_snapshot(d)
+        bump(res, "cli_runs")
+        if not alive:
+            bump(res, "cli_finished_before_kill")
+        else:
+            bump(res, "cli_killed")
+        res["nontrivial"] = True
+        bak = "#%s.1#" % fname
+        w = {"program": prog, "command": args, "killed_after_s": round(delay, 3), "runtime_s": round(T, 3),
+             "before": {n: v[2:] for n, v in before.items()}, "after": {n: v[2:] for n, v in after.items()}}
+        if prog == "gen_coords":
+            # coordinates are random: complete = same number of lines, ending with the box line of the reference
+            same_tail = lambda b: len(b.split(b"\n")) == len(ref.split(b"\n")) and b.split(b"\n")[-2:] == ref.split(b"\n")[-2:]
+        else:
+            same_tail = lambda b: b.split(b"\n", 1)[-1] == ref.split(b"\n", 1)[-1]
+        if after == before:
+            bump(res, "kill_state_unchanged")
+        elif fname in after and same_tail(open(os.path.join(d, fname), "rb").read()) and \
+                (prog == "gen_seq" or (bak in after and after[bak][3] == before[fname][3])):
+            bump(res, "kill_state_complete")
+        elif prog != "gen_seq" and fname not in after and bak in after and after[bak][3] == before[fname][3]:
+            bump(res, "kill_state_handover_recorded")          # between the two moves of the writer
+        elif prog == "gen_seq" and fname in after and ref.startswith(open(os.path.join(d, fname), "rb").read()):
+            bump(res, "kill_state_partial_json_recorded")       # writing had started
+        else:
+            changed = sorted(set(after) ^ set(before)) + [n for n in after if n in before and after[n] != before[n]]
+            violation(res, "%s:killed-process-leaves-damaged-output" % prog, "after SIGKILL at %.2f of the runtime the "
+                      "directory changed (%s) but holds neither the complete output nor the untouched previous file" %
+                      (delay / T, changed), w)
+    return res
+
+
 def run_case(cid, rng, workdir):
     res = new_result()
     prog, idx, mode, chunk = cid
+    if mode == "kill":
+        return run_kill(cid, rng, workdir, res)
     from vermouth.file_writer import DeferredFileWriter
     import logging
     logging.getLogger("polyply").setLevel(logging.ERROR)
